@@ -810,7 +810,7 @@ class LiveRun:
             elif kind == "exchange":
                 self._exchange_event(self.ex_events.popleft())
             elif kind == "tick":
-                self.now += 0.25
+                self.now += self.scenario.get("tick_seconds", 0.25)
                 self._sync_clock()
                 if self.fw.markets.live_orders:
                     self.fw.handler_queue.put(_F["events"].CurrentOrdersEvent([]))
